@@ -348,21 +348,18 @@ def r3(ctx, F, bs):
                     problems.append('an optional suffix depends on more than a counter')
             if shape:
                 helper = flat[3][1]
-                dg = chase_tuple(fl, flat[3][2])
-                sr = None
-                for o in fl.origins(ct['args'][0]):
-                    if o.kind == 'call' and o.key == 'std::path::Path::join':
-                        sr = chase_tuple(fl, A.blocks[o.bb]['term']['args'][0])
-                if dg is None or sr is None or dg[0] != sr[0]:
-                    unknown.append('winner/loser are not elements of one tuple')
-                else:
-                    ds_, ss_ = dict(tuple_sides(bs, fl, dg[0], dg[1])), dict(tuple_sides(bs, fl, sr[0], sr[1]))
-                    if not ds_ or set(ds_) != set(ss_) or '?' in set(ds_.values()) | set(ss_.values()):
-                        unknown.append('sides of the winner/loser tuple')
-                    elif any(ds_[k] != ss_[k] for k in ds_):
+                views = bs.winner_views()
+                if not views:
+                    unknown.append('no single comparison of the two digests')
+                for label, by_cmp, excl in views or []:
+                    with fl.restricted(excl):
+                        ds_ = bs.fp_side({o for o in fl.origins(flat[3][2]) if True})
+                        src_c = bs.classify_path(ct['args'][0])
+                    if len(ds_) != 1 or '?' in ds_ or src_c[0] != 'live' or src_c[1] not in ('a', 'b'):
+                        unknown.append('side of the digest / of the copied content on the %s edge' % label)
+                    elif list(ds_)[0] != src_c[1]:
                         problems.append('the digest in the name is not the digest of the content that is copied there (the copy holds side %s, the name shows side %s)' % (
-                            sorted(ss_.values()), sorted(ds_.values())))
-                    src_elem = sr
+                            src_c[1], sorted(ds_)))
     if not problems and unknown:
         ctx.undecided('C06.R3', 'apply: the conflict-copy name is built from a value outside the model (%s)' % '; '.join(sorted(set(unknown))))
     ctx.check(not problems, 'C06.R3', 'apply:loser-name', 'rel + ".conflict-" + host + "-" + hex12(loser digest) [+ "." + counter]',
@@ -449,37 +446,27 @@ def r4(ctx, F, bs):
             ctx.check(ok, 'C06.R4', 'apply:DeleteVsModify:record-%s' % src_side, 'common[rel] = %s[rel] (the restored side)' % src_side,
                       'DeleteVsModify records %s while restoring from side %s' % (sorted(sides), src_side), term_loc(A, ib))
         elif 'BothChanged' in arms:
-            # winner at rel, loser at the loser name: tuple positions 1 and 3
-            def tuple_pos(op):
-                out = set()
-                l = op['p']['l'] if op['k'] != 'const' else None
-                stack = [l]
-                visited = set()
-                while stack:
-                    x = stack.pop()
-                    if x is None or x in visited:
-                        continue
-                    visited.add(x)
-                    for (bb, idx, kind, data, dproj) in fl.defs.get(x, []):
-                        if kind == 'assign' and data['k'] == 'use' and data['ops'][0]['k'] != 'const':
-                            pr = data['ops'][0]['p']['proj']
-                            fields = [e['f'] for e in pr if isinstance(e, dict) and 'f' in e]
-                            src_l = data['ops'][0]['p']['l']
-                            if fields and 'tuple' in fl.body.local_ty(src_l) or (fields and fl.body.local_ty(src_l).startswith('(')):
-                                out.add(fields[0])
-                            else:
-                                stack.append(src_l)
-                return out
-            pos = tuple_pos(it['args'][2])
+            # winner's fingerprint at rel, loser's at the conflict-copy name - judged on each outcome of the digest comparison
+            views = bs.winner_views()
+            sides_ok, got = bool(views), []
+            for label, by_cmp, excl in views or []:
+                with fl.restricted(excl):
+                    over = [c for c in bs.copy_sites() if 'BothChanged' in bs.arm_of(c[0]) and c[3][0] == 'live']
+                    vs = bs.fp_side(fl.origins(it['args'][2]))
+                X = over[0][2][1] if len(over) == 1 else None
+                Y = over[0][3][1] if len(over) == 1 else None
+                got.append((label, sorted(vs), X, Y))
+                if vs != ({X} if at_rel else {Y}):
+                    sides_ok = False
             if at_rel:
                 seen.add('BothChanged:winner')
-                ctx.check(pos == {1}, 'C06.R4', 'apply:BothChanged:record-winner', 'common[rel] = win_fp',
-                          'BothChanged records tuple element %s at rel instead of the winner\'s fingerprint' % sorted(pos), term_loc(A, ib))
+                ctx.check(sides_ok, 'C06.R4', 'apply:BothChanged:record-winner', 'common[rel] = winner\'s fingerprint',
+                          'BothChanged does not record the winner\'s fingerprint at rel (edge, recorded side, winner, loser: %s)' % got, term_loc(A, ib))
             else:
                 derived = any(o.kind == 'mutcall' for o in key_o)
                 seen.add('BothChanged:loser')
-                ctx.check(pos == {3} and derived, 'C06.R4', 'apply:BothChanged:record-loser', 'common[loser_name] = lose_fp',
-                          'BothChanged records tuple element %s at the conflict-copy name instead of the loser\'s fingerprint' % sorted(pos), term_loc(A, ib))
+                ctx.check(sides_ok and derived, 'C06.R4', 'apply:BothChanged:record-loser', 'common[loser_name] = loser\'s fingerprint',
+                          'BothChanged does not record the loser\'s fingerprint at the conflict-copy name (edge, recorded side, winner, loser: %s)' % got, term_loc(A, ib))
         else:
             ctx.bad('C06.R4', 'apply:%s:insert' % '+'.join(arms), 'unexpected write to the recorded state', term_loc(A, ib))
     for rb, rt in rem:
